@@ -704,15 +704,32 @@ func runC12(c *Ctx) {
 			c.check(okM && okS && okI, fn, "request", fn.Pos(), fmt.Sprintf("%v", fill), fmt.Sprintf("%s fills its request as %v: group, interface and source must come from the like-named arguments", spec.fn, fill))
 			// the kernel's refusal reaches the caller: the error returned depends on the errno of the setsockopt call
 			var errnoV ssa.Value
-			eachInstr(fn, func(in ssa.Instruction) {
+			var errnoSite ssa.Instruction // the call in fn through which the setsockopt happens (itself, or a shared primitive)
+			eachInstrDeep(fn, func(in, site ssa.Instruction, _ func(ssa.Value) ssa.Value) {
 				if call, ok := in.(*ssa.Call); ok && call.Call.StaticCallee() != nil && strings.HasPrefix(call.Call.StaticCallee().String(), "syscall.Syscall") {
 					if ex := extractOfInstr(call, 2); ex != nil {
-						errnoV = ex
+						errnoV, errnoSite = ex, site
 					}
 				}
 			})
 			if errnoV != nil {
 				reported := false
+				if ev, ok := errnoV.(ssa.Instruction); ok && ev.Parent() != fn {
+					// in a shared primitive: it returns the errno, and fn returns what the primitive returned
+					inner := false
+					for _, r := range returnsOf(ev.Parent()) {
+						if dependsOnLoose(r.Results[len(r.Results)-1], errnoV) {
+							inner = true
+						}
+					}
+					if sv, ok := errnoSite.(ssa.Value); ok && inner {
+						for _, r := range returnsOf(fn) {
+							if dependsOnLoose(r.Results[len(r.Results)-1], sv) {
+								reported = true
+							}
+						}
+					}
+				}
 				for _, r := range returnsOf(fn) {
 					if dependsOnLoose(r.Results[len(r.Results)-1], errnoV) {
 						reported = true
